@@ -10,7 +10,7 @@ PID = "C10"
 ANCHORS = ["scores.py:Scores.cm", "scores.py:Scores._threshold_at_ratio", "scores.py:Scores._invert_increasing_function", "scores.py:pointwise_cm",
            "metrics.py:tpr", "metrics.py:topr", "cm.py:ConfusionMatrix.__init__"]
 RAISES_ARE_VIOLATIONS = True
-DECIDING = {"M-state": 174728, "M-shape": 86654, "R-hist": 4047}
+DECIDING = {"M-state": 174728, "M-shape": 86654, "R-hist": 4047, "M-pw": 6000}
 THOROUGH_EXTRA = ["W2"]
 RULE = (
     "M-state wraps every public query of Scores/GroupScores (cm, 12 rates, 12 threshold_at_*, threshold_at_metric, eer, auc, swap, "
@@ -29,6 +29,7 @@ ALIAS = {"tpr": "tar", "fnr": "frr", "tnr": "trr", "fpr": "far", "topr": "accept
 
 def install(ctx):
     monitors.install_state(ctx.sess)
+    monitors.install_pointwise_cm(ctx.sess)  # M-pw: membership by the decision rule on the exact values, whatever container the threshold came in
 
 
 def cases(ctx):
@@ -194,6 +195,14 @@ def execute(ctx, case):
     pw = pointwise_cm(labels.reshape(sshape), sv.reshape(sshape), th, score_class=sc, equal_class=ec)
     C(pw.shape == sshape + np.shape(th) + (2, 2) and pw.dtype == bool, "pointwise_cm shape is not scores.shape+threshold.shape+(2,2)", "hist-pw-shape", got=pw.shape, thr_shape=np.shape(th), scores_shape=sshape)
     C(np.array_equal(labels, l0) and np.array_equal(sv, s0) and (not isinstance(th, np.ndarray) or np.array_equal(th, th0)), "pointwise_cm mutated an argument", "hist-pw-args")
+    # elementwise: slice j of the vectorised result equals the call with element j as a plain Python scalar / numpy scalar / 0-d array
+    tv = np.asarray(gen.thresholds(rng, allv, with_inf=True)[:6], dtype=float)
+    pwv = pointwise_cm(labels, sv, tv, score_class=sc, equal_class=ec)
+    for j in range(len(tv)):
+        for form, x in (("python float", float(tv[j])), ("np.float64", np.float64(tv[j])), ("0-d array", np.asarray(tv[j]))):
+            one = pointwise_cm(labels, sv, x, score_class=sc, equal_class=ec)
+            C(one.shape == (len(sv), 2, 2) and np.array_equal(one, pwv[:, j]), "pointwise_cm: an element of the vectorised result differs from the scalar call on that element",
+              "hist-pw-elementwise", threshold=float(tv[j]), form=form, scores_dtype=str(sv.dtype))
     # ConfusionMatrix queries (binary, from cm(); and a multiclass one): judged by M-state, repeated queries identical
     from score_analysis import ConfusionMatrix
 
